@@ -1,5 +1,11 @@
 """C03 — hidden attributes are re-encrypted hop by hop without changing the plaintext."""
+from props import _worldprop as WP
+import worldhist as WH
+import worldgen as W
+import radlib as R
 ID = "C03"
+project = WP.make_project("C02")
+relevant_verdict = WP.make_relevant(ID, also=("C01:user-password",))
 LEAN_TARGETS = ["Rsp.Props.C03", "Rsp.Tie.C03"]
 THEOREMS = ["Rsp.Crypt.rfc_decrypt_encrypt", "Rsp.Crypt.pwdLoop_enc", "Rsp.Crypt.pwdLoop_dec", "Rsp.Crypt.recrypt_core",
             "Rsp.Props.C03.pwdrecrypt_meets_spec", "Rsp.Props.C03.msmpprecrypt_meets_spec",
@@ -68,4 +74,63 @@ def gen(rng, tier):
 
 
 def nontrivial(c):
-    return bool(c.tags.get("valid"))
+    return bool(c.tags.get("valid")) or bool(c.tags.get("hidden"))
+
+
+def build_hidden(exe, rng, idx):
+    """message level: User-Passwords of 1..128 octets on requests; replies with any number and placement of
+    Tunnel-Password attributes and MS vendor attributes (several keys per attribute, valid and invalid lengths)"""
+    cfg = W.rand_cfg(rng, rewrites=rng.random() < 0.2, ttl=False, nclients=rng.randrange(1, 3), nservers=rng.randrange(1, 3))
+    for c in cfg.clients:
+        c["reqma"] = c["reqmap"] = False
+    cfg.opts["verifyeap"] = 0
+    names = [s["name"] for s in cfg.servers]
+    cfg.realms = [dict(name=b"*", srv=names, acc=names, msg=None, accresp=False)]
+    h = WH.Hist(exe, rng, cfg)
+    if not h.alive:
+        return h.finish(kind="cfg-crash")
+    for c in cfg.clients:
+        h.client(c)
+    for step in range(rng.randrange(6, 20)):
+        if h.s.dead:
+            break
+        k = rng.randrange(h.ncl)
+        r = rng.random()
+        if r < 0.45:
+            plain = R.rand_bytes(rng, rng.choice([1, 8, 15, 16, 17, 31, 32, 33, 64, 100, 128]))
+            h.rq(k, h.make_request(k, code=1, user=b"u@x", extra=[], pwd=plain))
+            h.tag("hidden")
+        elif h.outstanding:
+            ent = h.outstanding.pop(rng.randrange(len(h.outstanding)))
+            h.send("writer " + ent[0])
+            sv, fw = h.srv(ent[0]), ent[2]
+            attrs = [(18, b"ok")]
+            for _ in range(rng.choice([0, 1, 1, 2, 3])):
+                salt = bytes([rng.randrange(256) | 0x80, rng.randrange(256)])
+                ct = R.pwd_encrypt(R.rand_bytes(rng, rng.choice([16, 32, 48, 128])), sv["secret"], fw[4:20], salt)
+                if rng.random() < 0.08:
+                    ct = ct[:rng.randrange(0, len(ct))]
+                attrs.insert(rng.randrange(len(attrs) + 1), (69, bytes([rng.randrange(32)]) + salt + ct))
+            for _ in range(rng.choice([0, 1, 1, 2])):
+                subs = []
+                for ty in [rng.choice([16, 17, 12, 7, 16, 17]) for _s in range(rng.randrange(1, 4))]:
+                    salt = bytes([rng.randrange(256) | 0x80, rng.randrange(256)])
+                    ct = R.pwd_encrypt(R.rand_bytes(rng, rng.choice([16, 32, 48])), sv["secret"], fw[4:20], salt)
+                    if rng.random() < 0.06:
+                        ct = ct + b"x" * rng.randrange(1, 15)
+                    subs.append((ty, salt + ct))
+                body = (311).to_bytes(4, "big") + b"".join(bytes([t, len(v) + 2]) + v for t, v in subs)
+                if len(body) <= 253:
+                    attrs.insert(rng.randrange(len(attrs) + 1), (26, body))
+            h.send("reply %s %s" % (ent[0], h.make_reply(ent, code=rng.choice([2, 2, 2, 11, 3]), attrs=attrs).hex()))
+            h.send("pop %d" % ent[3])
+            h.tag("hidden")
+        else:
+            h.send("pop %d" % k)
+    for k in range(h.ncl):
+        h.send("pop %d" % k)
+    return h.finish(kind="hidden")
+
+
+def gen_run(exe, rng, tier):
+    return WH.run_parallel(exe, rng, 150 if tier == "quick" else 4000, build_hidden)
